@@ -32,6 +32,9 @@ FAMILY = {
     'cut_forms': "start: 'a' ~ 'b' | 'a' 'c' ;\n",
     'leftrec': "start: e $ ;\ne: e '+' t | t ;\nt: /[0-9]/ | '(' ~ e ')' ;\n",
     'long_rule': "start: " + " | ".join(f"'k{i}' 'v{i}'" for i in range(14)) + " ;\n",
+    'params_based': "start: d | b ;\nb(X): x='a' ;\nd(S, 2) < b: y='b' ;\n",
+    'whitespace_none': "@@whitespace :: None\nstart: 'a' 'b' {/ /} $ ;\n",
+    'whitespace_novalue': "@@whitespace ::\n@@nameguard :: False\nstart: 'a' 'b' {/ /} $ ;\n",
     'dot_void_fail': "start: 'a' /./ () | 'b' !() | 'c' {} 'd' ;\n",
 }
 ANTLR = {
@@ -39,7 +42,7 @@ ANTLR = {
     'antlr_list': "grammar L;\nstart: '[' items+=item (',' items+=item)* ']' | name ;\nitem: x=name | pair=('(' start ')') ;\nname: 'a' | 'b' ;\n",
 }
 QUICK = ['directives', 'keywords', 'params', 'based', 'nomemo_override', 'eol_skipto', 'pattern_slash', 'pattern_backslash_slash', 'token_quotes', 'token_backslash', 'joins', 'named_forms',
-         'lookaheads_groups', 'alerts_constants', 'typed', 'dot_void_fail', 'include']
+         'lookaheads_groups', 'alerts_constants', 'typed', 'dot_void_fail', 'include', 'params_based', 'whitespace_none']
 
 
 def make_quoting(spec):
